@@ -438,6 +438,26 @@ fn other_decoders(w: &World, rng: &mut Rng, frames: &[Frame], trace: &mut Trace,
         fuzz_one("namespace_secret_text", text.as_bytes(), |t| std::str::from_utf8(t).map_err(|e| e.to_string())
             .and_then(|s| s.parse::<iroh_docs::NamespaceSecret>().map(|_| ()).map_err(|e| e.to_string())), trace, sum);
     }
+    // filters survive their textual form (Display then FromStr): plain, empty, non-UTF-8, ':'-containing bytes and valid UTF-8
+    // that a printer might be tempted to escape (backslashes, quotes, control characters, DEL, NUL)
+    {
+        use iroh_docs::store::FilterKind;
+        let samples: Vec<Vec<u8>> = vec![vec![], b"a".to_vec(), b"a:b".to_vec(), b"utf8:x".to_vec(), b"hex:00".to_vec(), vec![0xff, 0xfe], vec![0xc3, 0x28],
+            "\u{e9}t\u{e9}".as_bytes().to_vec(), b"assets\\img\\".to_vec(), b"it's".to_vec(), b"say \"hi\"".to_vec(), b"line\nbreak\ttab".to_vec(),
+            vec![0], vec![b'a', 0x7f, b'b'], b"\\x41\\u{e9}".to_vec(), b"{}%\r".to_vec()];
+        for (i, b) in samples.iter().enumerate() {
+            for extra in 0..3 {
+                let mut bytes = b.clone();
+                for _ in 0..extra {
+                    bytes.push(*rng.pick(&[b'\\', b'\'', b'"', b'\n', 0u8, b'z', 0x1b, 0x80, b':']));
+                }
+                let f = if (i + extra) % 2 == 0 { FilterKind::Prefix(bytes.clone().into()) } else { FilterKind::Exact(bytes.clone().into()) };
+                let same = std::panic::catch_unwind(std::panic::AssertUnwindSafe(|| f.to_string().parse::<FilterKind>().map(|g| g == f).unwrap_or(false)));
+                trace.emit(json!({"ev":"RT","dec":"filter","same": same.unwrap_or(false)}));
+                sum.add("decode_calls", 1);
+            }
+        }
+    }
     // filter strings
     for s in ["prefix:utf8:abc", "exact:hex:00ff", "prefix:hex:zz", "nope", "exact:utf8:", "exact::", ":::", "prefix:hex:0"] {
         for _ in 0..3 {
